@@ -363,7 +363,7 @@ func rerunVariants(c *Ctx, pipe *pipeline.Pipe, it *pipeline.Item, rmu *sync.Mut
 		for k, v := range it.GenSrc {
 			first[k] = v
 		}
-		variants := []string{"rerun-with-previous-output", "rerun-GOMAXPROCS=1", "rerun-truncated-previous-output", "rerun-GOMAXPROCS=16", "rerun-longer-stale-output", "rerun-GOMAXPROCS=2", "rerun-GOMAXPROCS=5", "rerun-how=abs", "rerun-how=dot", "rerun-env TZ=Asia/Tokyo LANG=ja_JP.UTF-8"}
+		variants := []string{"rerun-with-previous-output", "rerun-GOMAXPROCS=1", "rerun-truncated-previous-output", "rerun-GOMAXPROCS=16", "rerun-longer-stale-output", "rerun-GOMAXPROCS=2", "rerun-GOMAXPROCS=5", "rerun-how=abs", "rerun-how=dot", "rerun-env TZ=Asia/Tokyo LANG=ja_JP.UTF-8", "rerun-how=loglevel-debug", "rerun-how=loglevel-error"}
 		if c.Thorough() {
 			for _, n := range []int{3, 4, 6, 7, 8, 9, 10, 11, 12, 13, 14, 15} {
 				variants = append(variants, fmt.Sprintf("rerun-GOMAXPROCS=%d", n))
